@@ -11,7 +11,9 @@ generated function equals the function the model uses; the property theorems are
 
 What is supported (anything else raises Unsupported and the caller reports it):
   parameters: the four-block array `data` (read with a constant index), integer scalars, and one
-  pointer to a struct that is only written through `p->field = e`;
+  pointer to a struct: a const struct is an input (the fields read become parameters), otherwise
+  an output (result = return value and fields) or, when a field is updated in place, input and
+  output; an array field is a list (p->a[i] is nth, p->a[i] = v is upd);
   statements: declarations with initialiser, assignments (=, op=, ++, --) to locals / parameters
   / fields of the out-struct, if / else if / else, return;
   expressions: integer literals, enum constants, + - * / % & | ^ << >>, comparisons, && || !,
@@ -52,6 +54,8 @@ FUNCS = [
     ("src/group4.c", "rdsparser_group4a_get_minute", "c_get_minute"),
     ("src/group4.c", "rdsparser_group4a_get_time_offset", "c_get_offset"),
     ("src/string.c", "rdsparser_string_calculate_error", "c_calc_error"),
+    ("src/af.c", "rdsparser_af_set", "c_af_set"),
+    ("src/af.c", "rdsparser_af_get", "c_af_get"),
     ("src/ct.c", "rdsparser_ct_init", "c_ct_init"),
     ("src/ct.c", "rdsparser_ct_get_year", "c_ct_get_year"),
     ("src/ct.c", "rdsparser_ct_get_month", "c_ct_get_month"),
@@ -155,10 +159,19 @@ def const_value(node, ctx):
 
 
 def lvalue_name(node, ctx):
-    """('var', name) | ('field', name) for an assignable expression"""
+    """('var', name) | ('field', name) | ('elem', name, index term) for an assignable expression"""
     k = node["kind"]
     if k == "ParenExpr":
         return lvalue_name(node["inner"][0], ctx)
+    if k == "ArraySubscriptExpr":
+        base, idx = node["inner"]
+        while base["kind"] in ("ImplicitCastExpr", "ParenExpr"):
+            base = base["inner"][0]
+        if base["kind"] == "MemberExpr":
+            kind, name = lvalue_name(base, ctx)
+            if kind == "field":
+                return ("elem", name, expr(idx, ctx))
+        raise Unsupported("assignment to an array element")
     if k == "DeclRefExpr" and node["referencedDecl"]["kind"] in ("VarDecl", "ParmVarDecl"):
         return ("var", node["referencedDecl"]["name"])
     if k == "MemberExpr":
@@ -171,7 +184,12 @@ def lvalue_name(node, ctx):
 
 
 def read_lvalue(node, ctx):
-    kind, name = lvalue_name(node, ctx)
+    lv = lvalue_name(node, ctx)
+    if lv[0] == "elem":
+        if lv[1] not in ctx.fields:
+            raise Unsupported("read of an array field that is not an input")
+        return "(nth (Z.to_nat %s) %s 0)" % (lv[2], ctx.fields[lv[1]])
+    kind, name = lv
     if kind == "var":
         if name not in ctx.env:
             raise Unsupported("read of unknown variable %s" % name)
@@ -188,7 +206,7 @@ CMP = {"<": "<?", "<=": "<=?", ">": ">?", ">=": ">=?", "==": "=?"}
 
 def binop(op, ty, a, b, bnode, ctx):
     if op in (">>", "<<"):
-        const_value(bnode, ctx)      # shifts by constants only
+        pass                         # shift counts: constants or small non-negative values (0..7 here)
     if op in ("/", "%"):
         if const_value(bnode, ctx) == 0:
             raise Unsupported("division by zero")
@@ -264,6 +282,11 @@ def expr(node, ctx):
         base, idx = node["inner"]
         while base["kind"] in ("ImplicitCastExpr", "ParenExpr"):
             base = base["inner"][0]
+        if base["kind"] == "MemberExpr":
+            kind, name = lvalue_name(base, ctx)
+            if kind == "field" and name in ctx.fields:
+                return "(nth (Z.to_nat %s) %s 0)" % (expr(idx, ctx), ctx.fields[name])
+            raise Unsupported("array field read")
         if base["kind"] == "DeclRefExpr" and base["referencedDecl"]["name"] == ctx.data_param:
             i = const_value(idx, ctx)
             if not 0 <= i < 4:
@@ -381,13 +404,18 @@ def assign(node, ctx):
         return assign(node["inner"][0], ctx)
     if k == "BinaryOperator" and node["opcode"] == "=":
         lhs, rhs = node["inner"]
-        kind, name = lvalue_name(lhs, ctx)
+        lv = lvalue_name(lhs, ctx)
+        if lv[0] == "elem":
+            ctx.bind(lv[1], "(upd (Z.to_nat %s) %s %s)" % (lv[2], expr(rhs, ctx), ctx.fields[lv[1]]), field=True)
+            return
+        kind, name = lv
         ctx.bind(name, expr(rhs, ctx), field=(kind == "field"))
         return
     if k == "CompoundAssignOperator":
         op = node["opcode"][:-1]
         lhs, rhs = node["inner"]
-        kind, name = lvalue_name(lhs, ctx)
+        lv = lvalue_name(lhs, ctx)
+        kind, name = lv[0], lv[1]
         lty = ctype(lhs)
         cty = node.get("computeResultType", {})
         q = cty.get("desugaredQualType", cty.get("qualType", "int")).replace("const ", "")
@@ -396,6 +424,9 @@ def assign(node, ctx):
             raise Unsupported("compound assignment in type %r" % q)
         cur = wrap(comp, read_lvalue(lhs, ctx), lty)
         val = binop(op, comp, cur, expr(rhs, ctx), rhs, ctx)
+        if kind == "elem":
+            ctx.bind(name, "(upd (Z.to_nat %s) %s %s)" % (lv[2], wrap(lty, val, comp), ctx.fields[name]), field=True)
+            return
         ctx.bind(name, wrap(lty, val, comp), field=(kind == "field"))
         return
     if k == "UnaryOperator" and node["opcode"] in ("++", "--"):
@@ -575,6 +606,9 @@ def collect(tu):
                 nxt = v + 1
         if k == "RecordDecl" and n.get("name") and n.get("completeDefinition"):
             RECORDS[n["name"]] = [c["name"] for c in n.get("inner", []) if c.get("kind") == "FieldDecl"]
+            for c in n.get("inner", []):
+                if c.get("kind") == "FieldDecl" and "[" in c.get("type", {}).get("qualType", ""):
+                    ARRAY_FIELDS.add(c["name"])
         if k == "FunctionDecl" and any(c.get("kind") == "CompoundStmt" for c in n.get("inner", [])):
             funcs[n["name"]] = n
         for c in n.get("inner", []):
@@ -582,6 +616,26 @@ def collect(tu):
                 walk(c)
     walk(tu)
     return enums, funcs
+
+
+def reads_before_write(body, struct_param):
+    """does the function use a field of its out-struct in a compound assignment or read an element?"""
+    found = []
+
+    def walk(n):
+        if n.get("kind") == "CompoundAssignOperator":
+            lhs = n["inner"][0]
+            t = json.dumps(lhs)
+            if '"MemberExpr"' in t:
+                found.append(1)
+        for c in n.get("inner", []):
+            if isinstance(c, dict):
+                walk(c)
+    walk(body)
+    return bool(found)
+
+
+ARRAY_FIELDS = set()
 
 
 def translate(fn, enums, coqname, funcs=None):
@@ -633,6 +687,12 @@ def translate(fn, enums, coqname, funcs=None):
             args = used + args
             term = stmts(body.get("inner", []), ctx, [])
             return args, [], term, ranges
+        if reads_before_write(body, struct_param):
+            # IN / OUT: the fields are parameters and results
+            ctx.fields = {f: f for f in RECORDS[rec]}
+            for f in RECORDS[rec]:
+                ctx.count["f_" + f] = 1
+            args = list(RECORDS[rec]) + args
         fields = list(RECORDS[rec])     # an OUTPUT: result = (return value, fields in declaration order)
     term = stmts(body.get("inner", []), ctx, fields)
     return args, fields, term, ranges
@@ -643,6 +703,7 @@ HEADER = """(* GenLeaf.v — GENERATED by tools/cleaf.py from the C sources; do 
    Source tree: %s *)
 Require Import Base.
 Local Open Scope Z_scope.
+(* array fields of structs are lists: p->a[i] is nth, p->a[i] = v is upd (Base.v) *)
 Definition to_s16 (x : Z) : Z := let y := x mod 65536 in if y <? 32768 then y else y - 65536.
 Definition to_s32w (x : Z) : Z := let y := x mod 4294967296 in if y <? 2147483648 then y else y - 4294967296.
 
@@ -663,12 +724,13 @@ def main():
                 raise Unsupported("function %s not found in %s" % (cname, src))
             args, fields, term, ranges = translate(funcs[cname], enums, coqname, funcs)
             text += "(* %s: %s%s *)\n" % (src, cname, ("; result, then fields " + ", ".join(fields)) if fields else "")
-            text += "Definition %s (%s : Z) :=\n  %s.\n" % (coqname, " ".join(args), term)
+            binders = " ".join("(%s : %s)" % (x, "list Z" if x in ARRAY_FIELDS else "Z") for x in args)
+            text += "Definition %s %s :=\n  %s.\n" % (coqname, binders, term)
             if fields:
                 pat = "(" + ", ".join(["ret"] + ["x_" + f for f in fields]) + ")"
                 for comp in ["ret"] + ["x_" + f for f in fields]:
-                    text += "Definition %s__%s (%s : Z) : Z := let '%s := %s %s in %s.\n" % (
-                        coqname, comp.replace("x_", ""), " ".join(args), pat, coqname, " ".join(args), comp)
+                    text += "Definition %s__%s %s := let '%s := %s %s in %s.\n" % (
+                        coqname, comp.replace("x_", ""), binders, pat, coqname, " ".join(args), comp)
             text += "\n"
         except Unsupported as ex:
             errors.append("%s (%s): %s" % (cname, src, ex))
